@@ -267,7 +267,7 @@ class Gate:
                 self.cv.wait(left)
 
 
-def replay_threads(trace, S, n):
+def replay_threads(trace, S, n, act_calls=0):
     """Run the schedule on the real engine with real threads. Returns dict of observations."""
     steps = [s for s in trace["steps"] if s[1] != "YIELD"]
     params = trace["params"]
@@ -311,7 +311,17 @@ def replay_threads(trace, S, n):
             except Fail:
                 pass
 
+    def activator():
+        gate.tls.sender = S
+        for _ in range(act_calls):
+            try:
+                sm.activate_initial_state()
+            except Fail:
+                pass
+
     threads = [threading.Thread(target=sender, args=(t,), daemon=True) for t in range(S)]
+    if act_calls:
+        threads.append(threading.Thread(target=activator, daemon=True))
     for th in threads:
         th.start()
     for th in threads:
@@ -325,7 +335,7 @@ def replay_threads(trace, S, n):
     return obs
 
 
-def replay_asyncio(trace, S, n):
+def replay_asyncio(trace, S, n, act_calls=0):
     import asyncio
 
     steps = trace["steps"]
@@ -399,9 +409,24 @@ def replay_asyncio(trace, S, n):
                 progress["i"] += 1
             await asyncio.sleep(0)
 
+    async def activator():
+        t = S
+        for _ in range(act_calls):
+            await turn(t)
+            state["task"] = t
+            try:
+                r = sm.activate_initial_state()
+                if hasattr(r, "__await__"):
+                    await r
+            except Fail:
+                pass
+            while progress["i"] < len(steps) and steps[progress["i"]][0] == t:
+                progress["i"] += 1
+            await asyncio.sleep(0)
+
     async def main():
         await sm.activate_initial_state()
-        await asyncio.gather(*[sender(t) for t in range(S)])
+        await asyncio.gather(*[sender(t) for t in range(S)], *([activator()] if act_calls else []))
 
     loop = asyncio.new_event_loop()
     try:
@@ -464,7 +489,7 @@ def exclusion_known_window(ts):
         a = ts.states[k]
         for t in range(ts.S):
             at_put = z3.And(ts.sched[k] == t, z3.Or(*[a["pc"][t] == i for i in puts]))
-            others = z3.Or(*[z3.Or(*[a["pc"][u] == i for i in rels]) for u in range(ts.S) if u != t])
+            others = z3.Or(*[z3.Or(*[a["pc"][u] == i for i in rels]) for u in range(ts.T) if u != t])
             cs.append(z3.Not(z3.And(at_put, others)))
     return z3.And(*cs)
 
@@ -476,6 +501,8 @@ def configs(tier):
             ("sync", "threads", 2, 1, {}, 120),
             ("async", "asyncio", 2, 1, {}, 120),
             ("sync", "threads", 3, 1, {"allow_nested": False, "allow_fail": False}, 120),
+            ("async", "asyncio", 1, 1, {"act_calls": 1}, 120),
+            ("sync", "threads", 1, 1, {"act_calls": 1}, 120),
         ]
     return [
         ("sync", "threads", 2, 1, {}, 600),
@@ -485,6 +512,9 @@ def configs(tier):
         ("sync", "threads", 2, 2, {"allow_nested": False}, 900),
         ("async", "asyncio", 2, 2, {"allow_nested": False, "max_yields": 1}, 900),
         ("sync", "threads", 3, 1, {"allow_fail": False}, 900),
+        ("async", "asyncio", 2, 1, {"act_calls": 1, "max_yields": 1}, 900),
+        ("async", "asyncio", 1, 2, {"act_calls": 2, "max_yields": 1}, 900),
+        ("sync", "threads", 2, 1, {"act_calls": 1, "allow_nested": False}, 900),
     ]
 
 
@@ -495,10 +525,13 @@ def run_config(args):
     t0 = time.time()
     out = {"config": {"engine": engine, "mode": mode, "senders": S, "events_per_sender": n, **kw}, "queries": [], "error": None}
     try:
-        code, entry, funcs = bmc.compile_send(repo, engine, True)
+        code, entry, act_entry, funcs = bmc.compile_program(repo, engine, True)
         bmc.local_branches_equivalent(code)
         FLAG_MODE[0] = any(i.op in ("LTEST", "LSET") for i in code)
-        ts = bmc_ts.TS(code, entry, mode, S, n, **kw)
+        act_calls = kw.get("act_calls", 0)
+        if act_calls and act_entry is None:
+            raise bmc.Unsupported("StateMachine.activate_initial_state not found")
+        ts = bmc_ts.TS(code, entry, mode, S, n, act_entry=act_entry, **kw)
         out["K"] = ts.K
         out["events"] = ts.M
         for name, q in ts.queries():
@@ -506,7 +539,7 @@ def run_config(args):
             rec = {"query": name, "result": r["result"], "seconds": r["seconds"]}
             if r["result"] == "sat" and name != "unwinding-assertion":
                 rec["trace"] = r["trace"]
-                obs = (replay_threads if mode == "threads" else replay_asyncio)(r["trace"], S, n)
+                obs = (replay_threads if mode == "threads" else replay_asyncio)(r["trace"], S, n, act_calls)
                 rec["replay"] = {k: v for k, v in obs.items() if k not in ("started", "order")}
                 rec["reproduced"] = bool(obs["followed"] and observed_violation(name, obs))
                 rec["known"] = bool(name == "Q3-stranded" and mode == "threads" and is_known_window(ts, r["trace"]))
@@ -515,7 +548,7 @@ def run_config(args):
                     rec2 = {"query": r2["query"], "result": r2["result"], "seconds": r2["seconds"]}
                     if r2["result"] == "sat":
                         rec2["trace"] = r2["trace"]
-                        obs2 = replay_threads(r2["trace"], S, n)
+                        obs2 = replay_threads(r2["trace"], S, n, act_calls)
                         rec2["replay"] = {k: v for k, v in obs2.items() if k not in ("started", "order")}
                         rec2["reproduced"] = bool(obs2["followed"] and observed_violation(name, obs2))
                         rec2["known"] = False
@@ -723,7 +756,7 @@ def custom_replay(path):
         body = json.load(f)
     cfg = body["config"]
     S, n = cfg["senders"], cfg["events_per_sender"]
-    obs = (replay_threads if cfg["mode"] == "threads" else replay_asyncio)(body["trace"], S, n)
+    obs = (replay_threads if cfg["mode"] == "threads" else replay_asyncio)(body["trace"], S, n, cfg.get("act_calls", 0))
     ok = bool(obs["followed"] and observed_violation(body["query"], obs))
     print(("REPRODUCED" if ok else "NOT-REPRODUCED") + f" property=C06 kind={body['query']} observations={ {k: v for k, v in obs.items() if k not in ('started', 'order')} }")
     return 1 if ok else 0
